@@ -74,7 +74,71 @@ def canon(v):
     return v
 
 
+def build_bigunit(case):
+    """Two units written by hand; the first one's unit_length is exactly case['unit_length'].  The bulk is one DW_FORM_block4 attribute of
+    an entry inside a subtree that carries DW_AT_sibling, so that a reader navigating by siblings never has to materialise it."""
+    le, fmt, ver, A, L = case['le'], case['fmt'], case['version'], case['addr_size'], case['unit_length']
+    O = 4 if fmt == 32 else 8
+    ab = bytearray()
+    for code, tag, ch, attrs in ((1, 0x11, 1, [(0x03, 0x08)]), (2, 0x2e, 1, [(0x01, 0x13)]), (3, 0x34, 0, [(0x03, 0x08)]),
+                                 (4, 0x34, 0, [(0x1c, 0x04)]), (5, 0x34, 0, [(0x49, 0x10)])):
+        ab += bytes([code, tag, ch]) + b''.join(bytes(a) for a in attrs) + b'\0\0'
+    ab += b'\0'
+
+    def header(length):
+        h = D.initial_length(le, fmt, length) + D.u(le, 2, ver)
+        return h + (bytes([1, A]) + D.u(le, O, 0) if ver >= 5 else D.u(le, O, 0) + bytes([A]))
+    hl = len(header(0))
+    root = b'\x01cu\0'
+    # fixed parts: root, A(sibling ref4), filler head (code + block4 length), null, B, null
+    fixed = len(root) + 5 + 5 + 1 + len(b'\x03last\0') + 1
+    n = L - (hl - (4 if fmt == 32 else 12)) - fixed
+    assert n >= 0
+    a_off = hl + len(root)
+    b_off = a_off + 5 + 5 + n + 1
+    body = root + b'\x02' + D.u(le, 4, b_off) + b'\x04' + D.u(le, 4, n) + bytes(n) + b'\0' + b'\x03last\0' + b'\0'
+    u0 = header(L) + body
+    assert len(u0) == L + (4 if fmt == 32 else 12)
+    ra = A if ver == 2 else O
+    body1 = b'\x01cu2\0' + b'\x05' + D.u(le, ra, b_off) + b'\0'
+    u1 = header(len(header(0)) - (4 if fmt == 32 else 12) + len(body1)) + body1
+    return {'.debug_info': u0 + u1, '.debug_abbrev': bytes(ab)}, {'a_off': a_off, 'b_off': b_off, 'cu1': len(u0), 'ref_die': len(u0) + hl + 5}
+
+
+def run_bigunit(ctx, case):
+    secs, x = build_bigunit(case)
+    L = case['unit_length']
+    tag = 'bigunit|unit_length=%#x|%d' % (L, case['fmt'])
+    try:
+        di = D.make_dwarfinfo(secs, case['le'], case['addr_size'])
+        cus = list(di.iter_CUs())
+        if [cu.cu_offset for cu in cus] != [0, x['cu1']] or cus[0]['unit_length'] != L:
+            ctx.fail(tag + '|units', 'expected units at [0, %d] with unit_length %#x, got %r / %r' % (
+                x['cu1'], L, [cu.cu_offset for cu in cus], cus and cus[0]['unit_length']), case)
+        else:
+            kids = [d.offset for d in cus[0].get_top_DIE().iter_children()]
+            if kids != [x['a_off'], x['b_off']]:
+                ctx.fail(tag + '|children', 'expected %r got %r' % ([x['a_off'], x['b_off']], kids), case)
+            b = di.get_DIE_from_refaddr(x['b_off'])
+            if b.tag != 'DW_TAG_variable' or b.attributes['DW_AT_name'].value != b'last':
+                ctx.fail(tag + '|by-offset', 'entry at %d: %r' % (x['b_off'], b), case)
+            if di.get_CU_containing(x['b_off']).cu_offset != 0:
+                ctx.fail(tag + '|get_CU_containing', 'offset %d' % x['b_off'], case)
+            r = di.get_DIE_from_refaddr(x['ref_die'])
+            t = r.get_DIE_from_attribute('DW_AT_type')
+            if t.offset != x['b_off']:
+                ctx.fail(tag + '|ref_addr-into-big-unit', 'expected %d got %r' % (x['b_off'], t.offset), case)
+    except Exception as e:  # noqa
+        ctx.fail_exc(tag, e, case)
+    ctx.count('bigunit')
+    if L >= 1 << 24:
+        ctx.count('bigunit.16MiB')
+    ctx.case(('bigunit', L, case['fmt'], case['version'], case['le'], case['addr_size']), True, dict(case))
+
+
 def run_case(ctx, case):
+    if case.get('kind') == 'bigunit':
+        return run_bigunit(ctx, case)
     E = env()
     w = D.InfoWriter(case)
     secs = w.sections
@@ -529,6 +593,12 @@ def sweep(tier):
                         case['units'] = [un]
                         case['tunits'] = [tun] if ver == 4 else []
                         cases.append(resolve_bases(case))
+    # unit sizes at and around the powers of 256 (the width boundaries of the length field and of every offset into the unit)
+    k = 0
+    for L in (0xff, 0x100, 0xffff, 0x10000, 0xffffff, 0x1000000) + ((0xfffffe, 0x1000001, 0x2000000) if tier == 'thorough' else ()):
+        for fmt in ((32, 64) if L < 0x100000 or tier == 'thorough' else (32,)):
+            k += 1
+            cases.append({'kind': 'bigunit', 'unit_length': L, 'fmt': fmt, 'version': (4, 5, 3, 2)[k % 4], 'addr_size': (8, 4)[k % 2], 'le': bool(k % 3)})
     return cases
 
 
@@ -538,7 +608,7 @@ def floors(ctx):
     for f in V5:
         if f != 'DW_FORM_implicit_const' and c['form.' + f] == 0:
             out.append('form never exercised: ' + f)
-    for k in ('feat.indirect', 'feat.implicit_const', 'feat.debug_types', 'feat.mixed-units', 'ref.unit', 'ref.addr', 'ref.sig8'):
+    for k in ('feat.indirect', 'feat.implicit_const', 'feat.debug_types', 'feat.mixed-units', 'ref.unit', 'ref.addr', 'ref.sig8', 'bigunit.16MiB'):
         if c[k] == 0:
             out.append('no case with ' + k)
     for ver in (2, 3, 4, 5):
